@@ -1,6 +1,7 @@
 """C01 - group reductions equal the per-group definition (array level, single pass, every dtype class and mask kind)."""
 import itertools
 from . import reductions as R
+from . import assembly as ASM
 
 PROP = "C01"
 DTYPES = ["float64", "float32", "int64", "int32", "uint64", "bool", "datetime64[ns]", "timedelta64[ns]"]
@@ -55,24 +56,29 @@ def cases(tier, seed):
                 out.append({"func": func, "dtype": dt, "N": 7, "G": 3, "threads": 1, "mask": {"kind": "bool_sym"}})
     for c in out:
         c["name"] = R.case_name(c) + ("/count" if c.get("with_count") else "")
+    out.extend(ASM.cases(tier))
     return out
 
 
 def run_case(E, case):
+    if case.get("family") == "assembly":
+        return ASM.run_case(E, case, PROP)
     return R.run_case(E, case, PROP, with_count=bool(case.get("with_count")))
 
 
 def replay(case, inputs, cand=None):
+    if case.get("family") == "assembly":
+        return ASM.replay(case, inputs, cand)
     return R.replay(case, inputs, with_count=bool(case.get("with_count")))
 
 
 def validate(E, seed, tier):
-    cs = [c for c in cases("quick", seed)]
+    cs = [c for c in cases("quick", seed) if c.get("family") != "assembly"]
     return R.validate_cases(E, cs, seed, 80 if tier == "quick" else 300)
 
 
 META = {
-    "glue": ['groupby_lib/groupby/numba.py::_apply_group_method_single_chunk', 'groupby_lib/groupby/numba.py::_build_target_for_groupby', 'groupby_lib/groupby/numba.py::_chunk_args_for_chunked_values', 'groupby_lib/groupby/numba.py::_chunk_args_for_unchunked_values', 'groupby_lib/groupby/numba.py::_chunk_groupby_args', 'groupby_lib/groupby/numba.py::_group_func_wrap', 'groupby_lib/groupby/numba.py::combine_chunk_results_for_factorized_key', 'groupby_lib/groupby/numba.py::group_count', 'groupby_lib/groupby/numba.py::group_mean', 'groupby_lib/groupby/numba.py::group_size', 'groupby_lib/groupby/numba.py::group_sum', 'groupby_lib/util.py::_cast_timestamps_to_ints', 'groupby_lib/util.py::_null_value_for_numpy_type', 'groupby_lib/util.py::check_data_inputs_aligned', 'groupby_lib/util.py::jit_is_null', 'groupby_lib/util.py::parallel_map'],
+    "glue": ['groupby_lib/groupby/core.py::_apply_gb_reduction', 'groupby_lib/groupby/core.py::_maybe_squeeze_to_1d', 'groupby_lib/groupby/core.py::_labels_argsort', 'groupby_lib/groupby/core.py::count_ikey', 'groupby_lib/groupby/core.py::key_count', 'groupby_lib/util.py::mean_from_sum_count', 'groupby_lib/util.py::argsort_index_numeric_only', 'groupby_lib/groupby/numba.py::_apply_group_method_single_chunk', 'groupby_lib/groupby/numba.py::_build_target_for_groupby', 'groupby_lib/groupby/numba.py::_chunk_args_for_chunked_values', 'groupby_lib/groupby/numba.py::_chunk_args_for_unchunked_values', 'groupby_lib/groupby/numba.py::_chunk_groupby_args', 'groupby_lib/groupby/numba.py::_group_func_wrap', 'groupby_lib/groupby/numba.py::combine_chunk_results_for_factorized_key', 'groupby_lib/groupby/numba.py::group_count', 'groupby_lib/groupby/numba.py::group_mean', 'groupby_lib/groupby/numba.py::group_size', 'groupby_lib/groupby/numba.py::group_sum', 'groupby_lib/util.py::_cast_timestamps_to_ints', 'groupby_lib/util.py::_null_value_for_numpy_type', 'groupby_lib/util.py::check_data_inputs_aligned', 'groupby_lib/util.py::jit_is_null', 'groupby_lib/util.py::parallel_map'],
     "bounds": {"quick": {"N": 4, "G": 2, "positions": "L in {1,3}", "slices": "start/stop in {None,-5..5} x step in {None,1,2,-1,-2} (a third for sum/first/size, 10 for the rest)"},
                "thorough": {"N": 6, "G": 3, "positions": "L <= 3", "slices": "all start/stop in {None,-7..7} x step {None,1,2,-1,-2} for sum/first/size; 10 for the rest",
                             "extra": "N=8 unmasked and N=7 symbolic boolean mask for float64/int64"}},
@@ -81,8 +87,15 @@ META = {
     "assumptions": ["null = NaN for floats, INT64_MIN for datetime/timedelta viewed as int64; plain int64 data excludes INT64_MIN",
                     "float inputs are finite or NaN", "sums/means in exact arithmetic (equal up to floating-point rounding)",
                     "narrow integer values range over their whole dtype; a group with no accepted value reports the library's null value for the dtype",
-                    "NumPy/numba models as in DESIGN.md 3.5; _val_to_numpy on proxies is the identity"],
-    "outside": ["pandas-level assembly in GroupBy._apply_gb_reduction (observed-label filter, sorting, naming): the KeyError for an all-null group "
-                "with unsorted first appearance lives there and is not reachable by this machinery",
+                    "NumPy/numba models as in DESIGN.md 3.5; _val_to_numpy on proxies is the identity",
+                    "assembly family: the real public methods GroupBy.sum/mean/min/max/first/last/count/size and the real non-transform body of "
+                    "_apply_gb_reduction run natively on a directly constructed state; the flat pandas objects it manipulates are a contract model "
+                    "(models.LIndex/FakeSeries/FakeFrame: concrete pairwise distinct labels; Series[list of ints] is a LABEL lookup as in pandas 3, "
+                    "iloc positional, loc boolean, reindex by label, arithmetic only between identically indexed Series); the data-dependent "
+                    "observed filter forks (one path per selection pattern, all decided); state invariant assumed for plain keys: every label has a "
+                    "row and first occurrences are in code order (what factorization establishes), none for categorical keys; cuts: "
+                    "_preprocess_arguments, _convert_arr_to_pandas_series; candidates are replayed through the public constructor GroupBy(keys)"],
+    "outside": ["assembly family: margins, transform (C07), several key levels (MultiIndex), temporal value dtypes (conversion back in "
+                "_convert_arr_to_pandas_series is pandas code), label ORDER of the result (C11); N > 4, G > 3 there",
                 "key factorization (C02)", "N > 6 (8)"],
 }
